@@ -240,6 +240,7 @@ class Vector(object):
                        accept_nan=self.accept_nan)
 
         clone.values = self.values.copy()
+        clone._hitbounds = self._hitbounds
 
         return clone
 
